@@ -293,9 +293,9 @@ func famCopy(g *genctx, v int) *scen {
 		body = fmt.Sprintf("    this.%s = args.dst.limited_copy_u32_from_slice!(up_to: args.n, s: this.%s[.. 6])", f, g.n("tab"))
 	}
 	s := &scen{coro: true, features: []string{"limited-copy"}}
-	s.fields = []string{f + " : base.u32", g.n("tab") + " : array[8] base.u8"}
+	s.fields = []string{f + " : base.u32", g.n("tab") + " : array[8] base.u8", g.n("seen") + " : base.u64"}
 	s.methods = []string{
-		fmt.Sprintf("pub func obj.%s?(src: base.io_reader, dst: base.io_writer, n: base.u32) {\n    this.%s[1] = 0x5A\n%s\n}", m, g.n("tab"), body),
+		fmt.Sprintf("pub func obj.%s?(src: base.io_reader, dst: base.io_writer, n: base.u32) {\n    this.%s[1] = 0x5A\n    this.%s = args.src.length() ~mod+ args.dst.length()\n%s\n}", m, g.n("tab"), g.n("seen"), body),
 		fmt.Sprintf("pub func obj.%s() base.u32 {\n    return this.%s\n}", g.n("getn"), f),
 	}
 	s.getters = []string{g.n("getn")}
@@ -393,7 +393,20 @@ func famSatModOps(g *genctx, v int) *scen {
 	m := g.n("ops")
 	s := &scen{features: []string{"~mod", "~sat", t.name}}
 	sh := t.bits - 1
+	// binary ~sat+ / ~sat- on u8/u16 and high_bits(n: 0) on u32/u64 make wuffs-c
+	// emit invalid / undefined C: those are the G-families' subjects; here the
+	// statement forms and a non-zero bit count are used.
+	satAdd, satSub := "        return args.x ~sat+ args.y", "        return args.x ~sat- args.y"
+	if t.bits < 32 {
+		satAdd = "        z = args.x\n        z ~sat+= args.y\n        return z"
+		satSub = "        z = args.x\n        z ~sat-= args.y\n        return z"
+	}
+	hb := fmt.Sprintf("(args.s & %d)", sh)
+	if t.bits >= 32 {
+		hb = fmt.Sprintf("((args.s & %d) + 1)", sh-1)
+	}
 	s.methods = []string{fmt.Sprintf(`pub func obj.%s(x: %s, y: %s, k: base.u32, s: base.u32) %s {
+    var z : %s
     if args.k == 0 {
         return args.x ~mod+ args.y
     } else if args.k == 1 {
@@ -401,9 +414,9 @@ func famSatModOps(g *genctx, v int) *scen {
     } else if args.k == 2 {
         return args.x ~mod* args.y
     } else if args.k == 3 {
-        return args.x ~sat+ args.y
+%s
     } else if args.k == 4 {
-        return args.x ~sat- args.y
+%s
     } else if args.k == 5 {
         return args.x ~mod<< (args.s & %d)
     } else if args.k == 6 {
@@ -417,10 +430,10 @@ func famSatModOps(g *genctx, v int) *scen {
     } else if args.k == 10 {
         return args.x.low_bits(n: args.s & %d)
     } else if args.k == 11 {
-        return args.x.high_bits(n: args.s & %d)
+        return args.x.high_bits(n: %s)
     }
-    return 0
-}`, m, t.name, t.name, t.name, sh, sh, sh, sh)}
+    return z
+}`, m, t.name, t.name, t.name, t.name, satAdd, satSub, sh, sh, sh, hb)}
 	s.drive = func(r *rand.Rand) []Call {
 		xs := edgeVals(r, 0, t.max())
 		var ks []uint64
